@@ -18,7 +18,7 @@
 (*         grid, both colours                                              *)
 (* Stride/Off select a deterministic 1/Stride sample (quick tier).         *)
 (***************************************************************************)
-EXTENDS Fen, TLC
+EXTENDS Fen, Zobrist, TLC
 
 CONSTANTS Fam, Stride, Off
 
@@ -89,6 +89,12 @@ Init == st \in { [stage |-> 0, k |-> k] : k \in Seeds }
 Next == /\ st.stage = 0
         /\ st' \in { [stage |-> 1, pos |-> p] : p \in { q \in Members(st.k) : Sane(q) } }
 Spec == Init /\ [][Next]_st
+
+\* C05 (b), model side: run with VIEW PosView and with VIEW HashView; equal distinct-state counts
+\* <=> no two members of the family share a hash
+PosView == st
+HashView == IF st.stage = 0 THEN <<0, st.k>> ELSE <<1, Hash(st.pos)>>
+NoEmit == TRUE
 
 Emit == st.stage = 1 => PrintT(<<"FEN", FenLine(st.pos) \o " 0 1">>)
 =============================================================================
